@@ -142,6 +142,9 @@ func Parse(b []byte) (*File, error) {
 }
 
 // HeaderBlock serializes canonical header maps the way the format prescribes.
+// MethodAbsent as method makes HeaderBlock omit the :method entry.
+const MethodAbsent = "\x00absent"
+
 func HeaderBlock(version, url, method string, req map[string]string, status string, resp map[string]string) []byte {
 	enc := func(m map[string]string, pseudo [][2]string) []byte {
 		var kvs []refcbor.KV
@@ -163,6 +166,9 @@ func HeaderBlock(version, url, method string, req map[string]string, status stri
 		return respB
 	}
 	ps := [][2]string{{":method", method}}
+	if method == MethodAbsent {
+		ps = nil // the request map carries no :method entry at all
+	}
 	if version == "1b1" {
 		ps = append(ps, [2]string{":url", url})
 	}
